@@ -202,6 +202,7 @@ def run(ctx, warn=False):
     res.rule("I19-STEP" + ("/warnings-as-errors" if warn else ""), n)
     if warn:
         return
+    refusal(ctx, h, res)
     # ---- copy.deepcopy of a universe (object protocol, a class's own __deepcopy__ honoured): the copy and its law set point at each
     # other, the originals still do, and a later assignment on the copy leaves the originals alone
     from rules import c10 as _c10
@@ -255,6 +256,83 @@ def run(ctx, warn=False):
     common.vacuity(res, "I19-STEP", 150)
     res.analysed = common.analysed(ctx, [UNI + ".__init__", LAWS + ".__init__"])
     res.explanation = "Both setters and the constructor keep the binding a partial bijection from every consistent pre-state, so it holds after every sequence of assignments."
+
+
+REFUSAL_SRC = '''
+from edgegraph.structure.universe import Universe, UniverseLaws
+class PickyUniverse(Universe):
+    """a user universe class that refuses any change of its law set while `locked` is set"""
+    locked = False
+    @property
+    def laws(self):
+        return Universe.laws.fget(self)
+    @laws.setter
+    def laws(self, new):
+        if self.locked:
+            raise RuntimeError("locked")
+        Universe.laws.fset(self, new)
+class PickyLaws(UniverseLaws):
+    """a user law-set class that refuses to be moved while `locked` is set"""
+    locked = False
+    @property
+    def applies_to(self):
+        return UniverseLaws.applies_to.fget(self)
+    @applies_to.setter
+    def applies_to(self, new):
+        if self.locked:
+            raise RuntimeError("locked")
+        UniverseLaws.applies_to.fset(self, new)
+'''
+
+
+def refusal(ctx, h, res):
+    """Objects of user subclasses whose own setter refuses (raises) while locked: an assignment that ends in that refusal is still one
+    assignment of the sequence - afterwards `u.laws is L` holds exactly when `L.applies_to is u`, for every pair."""
+    import itertools
+    n = 0
+    pre_bindings = [(), (("u1", "L1"),), (("p", "L1"),), (("u1", "L1"), ("p", "L2")), (("u1", "PL"),), (("p", "PL"),), (("u1", "PL"), ("p", "L1"))]
+    ops = [("laws", t, v) for t in ("u1", "p") for v in ("L1", "L2", "PL", None)] + [("applies_to", t, v) for t in ("L1", "L2", "PL") for v in ("u1", "p", None)]
+    for bind, (attr, target, value), locks in itertools.product(pre_bindings, ops, (("p",), ("PL",), ("p", "PL"))):
+        try:
+            h.reset()
+            m = h.w.load_text("verif_c19_refusal", REFUSAL_SRC)
+            h.w.mods.pop("verif_c19_refusal", None)
+            g = m.globals
+            O = {"u1": h.I.call(g["Universe"], [], {}), "p": h.I.call(g["PickyUniverse"], [], {}), "L1": h.I.call(g["UniverseLaws"], [], {}), "L2": h.I.call(g["UniverseLaws"], [], {}),
+                 "PL": h.I.call(g["PickyLaws"], [], {})}
+            for k_, o_ in O.items():
+                o_.name = k_
+            h.settle()
+            # a universe may come with default laws of its own: detach them so that the pre-state is exactly `bind`
+            for un in ("u1", "p"):
+                if h.setattr(O[un], "laws", None).kind != "return":
+                    raise Unknown("detaching the default laws raises")
+            for un, ln in bind:
+                if h.setattr(O[un], "laws", O[ln]).kind != "return":
+                    raise Unknown(f"setting up {un}.laws = {ln} raises")
+            for ln in locks:
+                h.setattr(O[ln], "locked", True)
+            out = h.setattr(O[target], attr, O[value] if value else None)
+            bad = []
+            for un, ln in itertools.product(("u1", "p"), ("L1", "L2", "PL")):
+                lw, at = h.getattr(O[un], "laws"), h.getattr(O[ln], "applies_to")
+                if lw.kind != "return" or at.kind != "return":
+                    bad.append(f"reading {un}.laws / {ln}.applies_to raises")
+                    continue
+                if (lw.value is O[ln]) != (at.value is O[un]):
+                    bad.append(f"{un}.laws is {getattr(lw.value, 'name', lw.value)} but {ln}.applies_to is {getattr(at.value, 'name', at.value)}")
+        except Unknown as u:
+            res.ob(False)
+            res.undecide(f"I19-REFUSAL {bind} {target}.{attr} = {value} locked {locks}: {u}")
+            continue
+        n += 1
+        res.ob(not bad, sig=("refusal", bind, attr, target, value, locks))
+        if bad:
+            res.violation("I19-STEP", (UNI + ".laws[set]") if attr == "laws" else (LAWS + ".applies_to[set]"), f"user-subclass-refuses,assignment-{'raises' if out.kind == 'raise' else 'returns'},locked={'+'.join(locks)}",
+                          f"p is a Universe subclass and PL a UniverseLaws subclass whose own setters raise while locked; binding {dict(bind)}, locked {list(locks)}; {target}.{attr} = {value} "
+                          f"{'raises ' + out.excname if out.kind == 'raise' else 'returns'}; afterwards " + "; ".join(bad[:3]),
+                          replay="from edgegraph.structure.universe import Universe, UniverseLaws\n" + REFUSAL_SRC.split("UniverseLaws\n", 1)[1])
+    res.rule("I19-REFUSAL", n)
 
 
 def setitem(h, o, key, v):
